@@ -303,6 +303,17 @@ UNARY.update(cot=lambda u: div(cos(u), sin(u)), sec=_recip(cos), csc=_recip(sin)
              log10=lambda u: scal(1 / mp.log(10), log(u)))
 
 
+LN2 = mp.log(2)
+
+
+def logaddexp(a, b):
+    return log(add(exp(a), exp(b)))
+
+
+def logaddexp2(a, b):
+    return scal(1 / LN2, log(add(exp(scal(LN2, a)), exp(scal(LN2, b)))))
+
+
 def eval_jet(prog, x0, K, nodes=None, direction=1):
     """Jet of the program at x0 (t -> prog(x0 + direction*t)).  If nodes is a list, every
     (node_program, child_jets, jet) triple is appended (used by the analyticity-radius oracle)."""
@@ -334,7 +345,7 @@ def eval_jet(prog, x0, K, nodes=None, direction=1):
         a = eval_jet(prog[2], x0, K, nodes, direction)
         b = eval_jet(prog[3], x0, K, nodes, direction)
         op = prog[1]
-        j = {'+': add, '-': sub, '*': mul, '/': div}[op](a, b)
+        j = {'+': add, '-': sub, '*': mul, '/': div, 'L': logaddexp, 'L2': logaddexp2}[op](a, b)
         kids = [a, b]
     else:
         raise ValueError(prog)
@@ -378,6 +389,10 @@ def np_eval(prog, x):
             return a - b
         if op == '*':
             return a * b
+        if op == 'L':       # (numpy has no object loop for these two: the class methods are called directly)
+            return a.logaddexp(b) if hasattr(a, 'logaddexp') else np.logaddexp(a, b)
+        if op == 'L2':
+            return a.logaddexp2(b) if hasattr(a, 'logaddexp2') else np.logaddexp2(a, b)
         return a / b
     raise ValueError(prog)
 
@@ -450,5 +465,9 @@ def mp_eval(prog, z):
     if tag == 'b':
         a, b = mp_eval(prog[2], z), mp_eval(prog[3], z)
         op = prog[1]
+        if op == 'L':
+            return mp.log(mp.exp(a) + mp.exp(b))
+        if op == 'L2':
+            return mp.log(mp.power(2, a) + mp.power(2, b)) / mp.log(2)
         return a + b if op == '+' else a - b if op == '-' else a * b if op == '*' else a / b
     raise ValueError(prog)
